@@ -45,10 +45,18 @@ fn run_program(interp: &Interpreter, text: &str, args: Vec<Variable>) -> Out {
             Err(Stop::Panic(p)) => return Out::Panic(format!("create_call: {} @{}", p.short_msg(), p.file())),
             Err(Stop::Exhausted) => return Out::Exhausted,
         };
+        let first = match guard(|| call.exec()) {
+            Ok(Ok(v)) => canon(&v),
+            Ok(Err(e)) => return Out::ExecError(core::exec_error_kind(&e)),
+            Err(Stop::Panic(p)) => return Out::Panic(format!("exec: {} @{}", p.short_msg(), p.file())),
+            Err(Stop::Exhausted) => return Out::Exhausted,
+        };
+        // the same function value called again: a constant evaluated ahead of time must be as
+        // good as new at every evaluation of its site (fresh iterators, fresh cells)
         match guard(|| call.exec()) {
-            Ok(Ok(v)) => Out::Value(canon(&v)),
-            Ok(Err(e)) => Out::ExecError(core::exec_error_kind(&e)),
-            Err(Stop::Panic(p)) => Out::Panic(format!("exec: {} @{}", p.short_msg(), p.file())),
+            Ok(Ok(v)) => Out::Value(format!("{first} ; called again: {}", canon(&v))),
+            Ok(Err(e)) => Out::Value(format!("{first} ; called again: error {}", core::exec_error_kind(&e))),
+            Err(Stop::Panic(p)) => Out::Panic(format!("exec again: {} @{}", p.short_msg(), p.file())),
             Err(Stop::Exhausted) => Out::Exhausted,
         }
     })();
